@@ -73,6 +73,9 @@ MemFactOK(e, mode) ==
     /\ e.sig = "none"
     \* byte-exact read footprint where memcheck observed the call: no access outside the addressed elements
     /\ ("vgerr" \in DOMAIN e => e.vgerr = 0)
+    \* byte-exact read AND write footprint in every configuration: hardware watchpoints on the bytes adjacent to
+    \* the addressed elements (load / store) or on elements no active lane addresses (gather / scatter) saw no access
+    /\ ("hw" \in DOMAIN e => e.hw = 0)
     /\ CASE e.o = "store"   -> SameOutside(e.before, e.after, e.lead, Active(e.n, N) * w)
          [] e.o = "scatter" -> \A b \in 1..Len(e.mem) :
                                   (\A i \in 1..Len(e.idx) : e.base + e.idx[i] # (b - 1) \div w)
